@@ -218,6 +218,27 @@ def directed(ck):
             oc = outcomes(r)
             exp = [] if all(len(oc.get(s, [])) == 1 for s in range(4)) else ["acks=0 with a payload that cannot be queued: a send did not fire exactly once: %r" % oc]
             res.append(("acks0 faults " + tag, r, exp))
+            # acks=0 and a leader whose connection never comes up: the request waits in the broker client until the
+            # client's own request time-out cancels it (seeded C01-m11: no time-out is armed when no response is
+            # expected - the send Deferred would stay pending for ever); every attempt times out: the sends FAIL, once
+            cfg = base_cfg2(acks, batch, mx, acks0_faults=["pending"] * 40)
+            r = scenario(cfg, sends, pol_silent)
+            oc = outcomes(r)
+            exp = [] if all(len(oc.get(s, [])) == 1 and oc[s][0][0] == 0 for s in range(4)) else ["acks=0, connection never up: not every send failed exactly once after the attempts timed out: %r" % oc]
+            res.append(("acks0 connection never up " + tag, r, exp))
+            # ... or comes up only after the first time-out
+            cfg = base_cfg2(acks, batch, mx, acks0_faults=["pending"] * 40)
+            first = {"n": 0}
+
+            def pol_late(run, br, first=first):
+                if br.req["key"] == 0 and first["n"] == 0:
+                    first["n"] += 1
+                    return ("silent", br.rid)
+                return ("bans", br.rid, None)
+            r = scenario(cfg, sends, pol_late)
+            oc = outcomes(r)
+            exp = [] if all(len(oc.get(s, [])) == 1 for s in range(4)) else ["acks=0, connection up after the first time-out: a send did not fire exactly once: %r" % oc]
+            res.append(("acks0 connection late " + tag, r, exp))
         # cancel one send while the request is in flight, then stop with the request still pending
         run = CL.make_run2(base_cfg2(acks, batch, mx))
         run.pyevents = []
